@@ -10,4 +10,5 @@ import GeoVerif.Ops.Ramey
 import GeoVerif.Ops.ReadParam
 import GeoVerif.Ops.InputFile
 import GeoVerif.Ops.Proc
+import GeoVerif.Ops.Paths
 /-! Everything the driver needs (import-free models + ops). -/
